@@ -10,6 +10,7 @@ blocc/lex._tokenizer.c (CBMC cannot get through the flex skeleton itself, see DE
  C. CBMC over the compact scanner on a symbolic text of N bytes, whole vs. split at K:
       P1  K on a token boundary of the whole scan  => identical (code, start, length) sequences
       P2  K inside a lexeme                        => identical  (known finding: lexemes are split)
+      P3  K on a token boundary => the start condition (inside a literal / comment) after the first fragment is the one the whole scan has at K
  D. CBMC on the real chunk driver (tokenizer_buf / tokenizer_lex) with yylex / yy_scan_string cut.
 """
 import json, os, re, shutil, subprocess, time
@@ -46,6 +47,18 @@ def extract(workdir):
             raise V.BuildError("C13: cannot interpret the action of rule %d" % k)
         acts[k] = (tok, conds[push.group(1)] if push else 0, 1 if pop else 0)
     nrules = max(acts)
+    # end-of-buffer actions per start condition (every reader fragment is scanned as a buffer of its own, so these run at every
+    # fragment boundary): groups of `case YY_STATE_EOF(X):` labels followed by the action text up to yyterminate()
+    eofs = {}
+    for m in re.finditer(r"((?:^[ \t]*case YY_STATE_EOF\((\w+)\):[ \t]*\n)+)(.*?)yyterminate\(\);", src, re.S | re.M):
+        a = m.group(3)
+        if re.search(r"\breturn\b|\bBEGIN\b|YY_BREAK|^case ", a, re.M):
+            raise V.BuildError("C13: cannot interpret the end-of-buffer action %r" % a[:200])
+        push = re.search(r"yy_push_state\(\s*(\w+)", a); pop = "yy_pop_state(" in a
+        for c in re.findall(r"YY_STATE_EOF\((\w+)\)", m.group(1)):
+            eofs[conds[c]] = (conds[push.group(1)] if push else 0, 1 if pop else 0)
+    if sorted(eofs) != sorted(conds.values()):
+        raise V.BuildError("C13: end-of-buffer actions found for %s, start conditions are %s" % (sorted(eofs), sorted(conds.values())))
     eob = int(re.search(r"#define YY_END_OF_BUFFER (\d+)", src).group(1))
     os.makedirs(workdir, exist_ok=True)
     gen = os.path.join(workdir, "gentab")
@@ -62,9 +75,10 @@ def extract(workdir):
         f.write("static const unsigned char vx_jam[%d] = {%s};\n" % (ns, ",".join(map(str, d["jam"]))))
         f.write("static const unsigned char vx_next[%d][%d] = {%s};\n" % (ns, nc, ",".join("{%s}" % ",".join(map(str, row)) for row in d["next"])))
         f.write("static const struct { int tok; int push; int pop; } act_tab[%d] = { {0,0,0}%s, {0,0,0} };\n" % (nrules + 2, "".join(",{%d,%d,%d}" % acts[k] for k in range(1, nrules + 1))))
+        f.write("static const struct { int push; int pop; } eof_tab[%d] = { %s };\n" % (max(eofs) + 1, ", ".join("{%d,%d}" % eofs.get(k, (0, 0)) for k in range(max(eofs) + 1))))
     with open(os.path.join(workdir, "vx_next.h"), "w") as f:
         f.write("static const unsigned char vx_next[%d][%d] = {%s};\n" % (ns, nc, ",".join("{%s}" % ",".join(map(str, row)) for row in d["next"])))
-    return dict(ns=ns, nc=nc, jam=jam, nrules=nrules, eob=eob, acts=acts, conds=conds)
+    return dict(ns=ns, nc=nc, jam=jam, nrules=nrules, eob=eob, acts=acts, conds=conds, eofs=eofs)
 
 def native_validation(workdir, info, L):
     """compact scanner (c13/vxlex.c over the extracted tables) == real generated yylex, inside the real driver"""
@@ -160,6 +174,7 @@ def check(tier, findings, rundir, say):
                 if "KF_SCANNER_BOL_AT_FRAGMENT_START" in kf:
                     jobs.append((N, K, "P1kf", ex.submit(cbmc_run, wd, src, ["N=%d" % N, "K=%d" % K, "P1=1", "ONLY_BOL=1"], "p1kf_%d_%d" % (N, K), N + 2, 900)))
                 jobs.append((N, K, "P2", ex.submit(cbmc_run, wd, src, ["N=%d" % N, "K=%d" % K], "p2_%d_%d" % (N, K), N + 2, 900)))
+                jobs.append((N, K, "P3", ex.submit(cbmc_run, wd, src, ["N=%d" % N, "K=%d" % K, "P3=1"], "p3_%d_%d" % (N, K), N + 2, 900)))
         done = [(N, K, which, f.result()) for (N, K, which, f) in jobs]
     p2_known = "KF_SCANNER_LEXEME_SPLIT" in kf
     for N, K, which, r in done:
